@@ -29,6 +29,41 @@ NSHARDS = 16
 HOSTILE = ["T0", "T1", "T2", "default0", "default1", "ret0", "ret1", "check_single_arg", "target", "self_", "cls_", "args", "kwargs", "typechecker", "memos", "fn", "bound", "out", "name", "scope", "Any", "jaxtyping", "typing", "x", "y", "n", "_", "__", "return_", "inspect", "e", "msg"]
 
 
+def harvested_names():
+    """every parameter / local-variable / function name that occurs in the decorator's own source: a user
+    keyword spelled like one of them must never be captured by the wrapper (refactor-proof: read at run time)"""
+    import ast
+    import keyword
+    import os
+
+    import jaxtyping
+
+    out = set()
+    path = os.path.join(os.path.dirname(jaxtyping.__file__), "_decorator.py")
+    try:
+        tree = ast.parse(open(path).read())
+    except Exception:
+        return []
+    for n in ast.walk(tree):
+        if isinstance(n, ast.arg):
+            out.add(n.arg)
+        elif isinstance(n, ast.Name) and isinstance(n.ctx, ast.Store):
+            out.add(n.id)
+        elif isinstance(n, (ast.FunctionDef, ast.ClassDef)):
+            out.add(n.name)
+    return sorted(x for x in out if x.isidentifier() and not keyword.iskeyword(x) and not x.startswith("__") and x not in ("self", "cls"))
+
+
+_HARVESTED = None
+
+
+def hostile_pool():
+    global _HARVESTED
+    if _HARVESTED is None:
+        _HARVESTED = harvested_names()
+    return HOSTILE + _HARVESTED
+
+
 def shards(tier):
     return [{"i": i} for i in range(NSHARDS)]
 
@@ -52,7 +87,7 @@ def required_counters(tier):
         "sig.defaults": 200,
         "sig.hostile_names": 500, "sig.arg_symbolic": 100,
         "exc.propagated": 100,
-        "metadata.compared": 500, "style.double": 50, "sig.kw_named_like_posonly": 50,
+        "metadata.compared": 500, "style.double": 50, "same_def_decorated_twice": 30, "sig.kw_named_like_posonly": 50,
     }
 
 
@@ -62,7 +97,14 @@ class Boom(Exception):
 
 def gen_sig(rng):
     """-> list of params: dict(name, kind, ann: None|'arr'|'int', default: bool)"""
-    names = rng.sample(HOSTILE, 9)
+    pool = hostile_pool()
+    names = rng.sample(HOSTILE, 5) + rng.sample(pool, 4)
+    names = list(dict.fromkeys(names))
+    while len(names) < 9:
+        c = rng.choice(pool)
+        if c not in names:
+            names.append(c)
+    rng.shuffle(names)
     params = []
     npos = rng.choice((0, 0, 1, 2))
     npk = rng.choice((0, 1, 1, 2))
@@ -284,6 +326,37 @@ def run_case(rec, rng, rngkey=None):
         rec.count("sig.defaults")
     rec.count("sig.hostile_names", len(params))
     nontriv = len({p["kind"] for p in params}) >= 2 or bool(defaults)
+
+    # ---- the same def decorated a second time with annotations that are DIFFERENT objects printing the same
+    if kind == "def" and desc == "function" and style == "new" and anns and rng.random() < 0.3:
+        import jaxtyping as _jt
+
+        Tensor1 = type("Tensor", (), {"shape": (3,), "dtype": "float32"})
+        Tensor2 = type("Tensor", (), {"shape": (3,), "dtype": "float32"})
+        i0 = sorted(anns)[0]
+        pname = params[i0]["name"]
+        if params[i0]["kind"] in ("posonly", "pk", "kwonly") and not any("{" in getattr(a, "dim_str", "") for a in anns.values()):
+            outcomes = []
+            for T in (Tensor1, Tensor2):
+                ns2 = dict(ns)
+                ns2["_jtv_REC"] = []
+                ns2[f"_jtv_T{i0}"] = _jt.Shaped[T, "..."]
+                real.exec_src(src, ns2)
+                g = jaxtyped(typechecker=checker)(ns2[fname])
+                v2 = dict(vals)
+                v2[pname] = T()
+                a2, k2 = build_call(random.Random(rngkey + "/twice"), params, v2)
+                passed = any(v is v2[pname] for v in a2) or any(v is v2[pname] for v in k2.values())
+                try:
+                    g(*a2, **k2)
+                    outcomes.append(("ret", len(ns2["_jtv_REC"]), passed))
+                except BaseException as e:  # noqa
+                    outcomes.append((type(e).__name__, len(ns2["_jtv_REC"]), passed))
+            rec.count("same_def_decorated_twice")
+            rec.case((src, "twice", checker_name), True)
+            ok_kinds = ("ret", "Boom")
+            if all(o[2] for o in outcomes) and (outcomes[0][0] in ok_kinds) and outcomes[1][0] not in ok_kinds:
+                rec.violation("redecoration", case, f"the same def decorated twice with equal-looking but different annotation classes: first call {outcomes[0]}, second (well-typed for ITS annotations) {outcomes[1]}", mechanism="second-decoration-uses-first-decorations-checkers")
 
     # ---- metadata
     K_plain = type("K", (), {"m": wrap_in(plain)}) if desc != "function" else None
